@@ -259,7 +259,7 @@ func c06Regime(c *Ctx, T *ssa.Function) {
 		// stores argument provenance
 		storesOK := false
 		for _, a := range gCall.Call.Args {
-			if desc(a) == "param:trustStores" || strings.HasSuffix(desc(a), ".TrustStores") {
+			if desc(a) == w.paramFedBy(gCall.Parent(), ".TrustStores") || strings.HasSuffix(desc(a), ".TrustStores") {
 				storesOK = true
 			}
 		}
